@@ -42,6 +42,8 @@ def run_pure(binary, case_files, workdir, nproc=None):
     fails = []
     for o in outs:
         for l in o.splitlines():
+            if not l.startswith("{"):
+                continue      # the planner prints a few diagnostics to stdout
             rec = json.loads(l)
             if "summary" in rec:
                 s = rec["summary"]
